@@ -30,6 +30,9 @@ type RaftOpts struct {
 	// swarm parameters of this run
 	ElectPct, ClientTimeoutPct, FalseSuspectPct int
 	ElectPctOf                                  map[int]int // per server; overrides ElectPct
+	// PreCommitRefusePct: the network resource refuses a section at pre-commit with this probability (the deployed TCP
+	// mailboxes do when a connection dies after the write); the section must then leave no trace.
+	PreCommitRefusePct int
 	// SpecChannels: AServer's writes to appendEntriesCh are queued as the spec's Channel macro says (the deployment binds
 	// a Dummy there; what AppendEntries reads is TRUE either way), so that the spec variable can be rendered.
 	SpecChannels bool
@@ -89,6 +92,17 @@ type fn struct {
 	leaf
 	read  func() (tla.Value, error)
 	write func(tla.Value) error
+	// refuse, when set, is asked at PreCommit: true refuses the section (as a deployed mailbox may)
+	refuse func() bool
+}
+
+func (f *fn) PreCommit(distsys.ArchetypeInterface) chan error {
+	if f.refuse != nil && f.refuse() {
+		ch := make(chan error, 1)
+		ch <- errAbort
+		return ch
+	}
+	return nil
 }
 
 func (f *fn) ReadValue(distsys.ArchetypeInterface) (tla.Value, error) {
@@ -107,13 +121,21 @@ func (f *fn) WriteValue(_ distsys.ArchetypeInterface, v tla.Value) error {
 // indexed gives `ref x[_]` access to per-index leaf resources.
 type indexed struct {
 	distsys.ArchetypeResourceMapMixin
-	at func(idx tla.Value) distsys.ArchetypeResource
+	at     func(idx tla.Value) distsys.ArchetypeResource
+	refuse func() bool // see fn.refuse
 }
 
 func (m *indexed) Index(_ distsys.ArchetypeInterface, idx tla.Value) (distsys.ArchetypeResource, error) {
 	return m.at(idx), nil
 }
-func (m *indexed) PreCommit(distsys.ArchetypeInterface) chan error { return nil }
+func (m *indexed) PreCommit(distsys.ArchetypeInterface) chan error {
+	if m.refuse != nil && m.refuse() {
+		ch := make(chan error, 1)
+		ch <- errAbort
+		return ch
+	}
+	return nil
+}
 func (m *indexed) Commit(distsys.ArchetypeInterface) chan struct{} { return nil }
 func (m *indexed) Abort(distsys.ArchetypeInterface) chan struct{}  { return nil }
 func (m *indexed) Close() error                                    { return nil }
@@ -251,7 +273,7 @@ func NewRaft(o RaftOpts, choose func(in *sched.Instance, id string, k uint) uint
 	iface := distsys.NewMPCalContextWithoutArchetype(consts).IFace()
 
 	netFor := func(inst string, node int) distsys.ArchetypeResource {
-		return &indexed{at: func(idx tla.Value) distsys.ArchetypeResource {
+		return &indexed{refuse: func() bool { return !closing() && o.Pct("network-refuses-precommit", o.PreCommitRefusePct) }, at: func(idx tla.Value) distsys.ArchetypeResource {
 			dest := int(idx.AsNumber())
 			return &fn{
 				read: func() (tla.Value, error) {
